@@ -225,7 +225,12 @@ func checkC12(tier string) int {
 			m := mon.NewC12()
 			return wrapStateful(m.OnBlock)
 		},
-		gates: map[string]int{"ok:ADD_NETWORK_DELEGATE": 3, "ok:NETWORK_UNDELEGATE": 3, "ok:REWARDS_WITHDRAW_NETWORK_DELEGATE": 1, "ok:REWARDS_REINVEST_NETWORK_DELEGATE": 1},
+		tune: func(cfg *drive.Cfg, i int) {
+			if i%4 == 2 {
+				cfg.Scripts = []string{"delegation-drain", "transfers", "valrewards"}
+			}
+		},
+		gates: map[string]int{"ok:ADD_NETWORK_DELEGATE": 2, "ok:NETWORK_UNDELEGATE": 2, "ok:REWARDS_WITHDRAW_NETWORK_DELEGATE": 1},
 		jumps: true,
 	}, tier)
 }
